@@ -162,3 +162,74 @@ func genLong(prop string, r *sim.Rand) sim.Script {
 	}
 	return s
 }
+
+// GenSched generates a C08 script: a block tree prepared sequentially (every
+// block writes at most one key, so no map iteration order is observable), then
+// 2-5 tasks (committers and readers) for the seeded scheduler.
+func GenSched(r *sim.Rand, tier string) sim.Script {
+	s := &Script{Prop: "C08", Values: "bytes"}
+	nKeys := 1 + r.Intn(3)
+	nb := 3 + r.Intn(5)
+	nv := 0
+	parent := make([]int, nb)
+	for b := 0; b < nb; b++ {
+		p := b - 1
+		if b > 1 && r.Chance(1, 4) {
+			p = r.Intn(b) // fork
+		}
+		parent[b] = p
+		s.Ops = append(s.Ops, Op{K: "blk", P: p})
+		if r.Chance(2, 3) {
+			nv++
+			s.Ops = append(s.Ops, Op{K: "bset", B: b, Y: fmt.Sprintf("k%d", r.Intn(nKeys)), V: fmt.Sprintf("v%d", nv)})
+		}
+	}
+	// commit a prefix sequentially
+	pre := r.Intn(nb)
+	for b := 0; b < pre; b++ {
+		s.Ops = append(s.Ops, Op{K: "bcommit", B: b})
+	}
+	if pre > 0 && r.Chance(1, 3) {
+		// warm-up reads (memoisation happened before the concurrent phase)
+		for i := 0; i < 1+r.Intn(3); i++ {
+			s.Ops = append(s.Ops, Op{K: "sget", B: r.Intn(pre), Y: fmt.Sprintf("k%d", r.Intn(nKeys))})
+		}
+	}
+	var uncommitted []int
+	for b := pre; b < nb; b++ {
+		uncommitted = append(uncommitted, b)
+	}
+	nTasks := 2 + r.Intn(4)
+	nCommitters := 1 + r.Intn(2)
+	if nCommitters >= nTasks {
+		nCommitters = nTasks - 1
+	}
+	for t := 0; t < nTasks; t++ {
+		var ops []Op
+		if t < nCommitters && len(uncommitted) > 0 {
+			for c := 1 + r.Intn(2); c > 0; c-- {
+				// mostly oldest first; sometimes any (child before parent, same block by two tasks)
+				b := uncommitted[0]
+				if r.Chance(1, 3) {
+					b = uncommitted[r.Intn(len(uncommitted))]
+				}
+				ops = append(ops, Op{K: "bcommit", B: b})
+				if r.Chance(2, 3) && len(uncommitted) > 1 {
+					uncommitted = uncommitted[1:]
+				}
+			}
+			if r.Chance(1, 2) {
+				ops = append(ops, Op{K: "sget", B: r.Intn(nb), Y: fmt.Sprintf("k%d", r.Intn(nKeys))})
+			}
+		} else {
+			for c := 1 + r.Intn(5); c > 0; c-- {
+				k := []string{"sget", "sget", "qget", "bget"}[r.Intn(4)]
+				ops = append(ops, Op{K: k, B: r.Intn(nb), Y: fmt.Sprintf("k%d", r.Intn(nKeys))})
+			}
+		}
+		s.Tasks = append(s.Tasks, ops)
+	}
+	s.Strategy = []string{"rw", "rw", "pct", "rub"}[r.Intn(4)]
+	s.SchedSeed = r.U64()
+	return s
+}
